@@ -97,7 +97,8 @@ structure Config (α : Type) where
   term : TermM
   /-- `Direction::Reverse` -/
   reverse : Bool
-  /-- haversine metres from each vertex to the target (empty without target) -/
+  /-- haversine metres from each vertex to the target (empty without target); a negative entry
+  stands for "the haversine function returned `Err`" (coordinates out of range), see `estimate` -/
   gc : List α
   /-- `weight_factor`; `none` is read as `Cost::ONE` -/
   wf : Option α
@@ -358,17 +359,26 @@ def edgeTraversal (c : Config α) (e : Nat) (last : Option Nat) (prevState : Lis
         | none => .error .cost
         | some total => .ok (ac, total - ac, st2)
 
-/-- `SearchInstance::estimate_traversal_cost(v, target, state) * weight_factor` -/
+/-- `SearchInstance::estimate_traversal_cost(v, target, state) * weight_factor`.
+
+A **negative** table entry is the marker "no great-circle value": `haversine_distance_meters` returned
+`Err` for the pair (`v`, target) — a coordinate of either vertex outside [-180, 180] × [-90, 90], or
+NaN.  Both traversal models turn that into a `TraversalModelFailure` before they do anything else, and
+`run_a_star` asks for the estimate of every vertex it labels whatever the weight factor, so such a
+vertex fails the query even for Dijkstra.  (A great-circle distance itself is never negative: the
+formula is `R · 2 · asin √a` with `a ≥ 0`, a number `≥ 0` or NaN.) -/
 def estimate (c : Config α) (v : Nat) (state : List α) : Except ErrKind α :=
   match c.gc[v]? with
   | none => .error .network
   | some gcm =>
-    match c.trav.estimate c.feats gcm state with
-    | none => .error .traversal
-    | some dst =>
-      match c.cost.costEstimate state dst with
-      | none => .error .cost
-      | some est => .ok (est * (match c.wf with | some w => w | none => one))
+    if gcm < zero then .error .traversal
+    else
+      match c.trav.estimate c.feats gcm state with
+      | none => .error .traversal
+      | some dst =>
+        match c.cost.costEstimate state dst with
+        | none => .error .cost
+        | some est => .ok (est * (match c.wf with | some w => w | none => one))
 
 /-- the abstract instance of a configuration -/
 def Config.inst (c : Config α) : Inst α where
